@@ -172,12 +172,11 @@ func (c *FileCache[MetadataT]) Cache(key CacheKey, data io.Reader, expires time.
 		c.janitor.evict(maxCacheSize)
 	}
 
-	lock := getLock(c.locks, key)
-	lock.Lock()
-	defer lock.Unlock()
-
 	fileName := filepath.Join(c.rootDir.Path, key.Hex)
 
+	// The body is downloaded into the temporary file before the key's lock is taken: the lock is shared by
+	// every key of the shard, and nobody else should have to wait for this origin.
+	//
 	// Write into a temporary file and rename it over the final name once it is complete.
 	// Readers that still hold the previous file open keep reading the previous body,
 	// and a failed write never touches the entry that is already cached under this key.
@@ -212,6 +211,10 @@ func (c *FileCache[MetadataT]) Cache(key CacheKey, data io.Reader, expires time.
 		slog.Error("Failed to write cache file", "key", key.Hex, "error", err)
 		return nil, fmt.Errorf("%w: failed to write cache file '%s'", ErrCacheFileWrite, fileName)
 	}
+
+	lock := getLock(c.locks, key)
+	lock.Lock()
+	defer lock.Unlock()
 
 	if err := os.Rename(tmpName, fileName); err != nil {
 		os.Remove(tmpName)
